@@ -35,45 +35,6 @@ def roundTag (q : Rat) : String :=
   let d := q - (f : Rat)
   if d = 0 then "exact" else if d < 1/2 then "down" else if d > 1/2 then "up" else (if f % 2 = 0 then "tie-even" else "tie-odd")
 
-/-- known-finding classes of the integer sources (decidable on the inputs): the region in which the decision taken with the
-    thresholds the code uses differs from the decision with the right thresholds -/
-def fromIntClass (n r : Nat) (sat : Bool) (sz : Nat) (signed : Bool) (v : Int) : String :=
-  let raw : Int := v * ((2 ^ r : Nat) : Int)
-  let rightHi := raw > FixpntSpec.maxposZ n
-  if v = 0 then ""
-  else if signed then
-    if !sat then ""
-    else
-      -- Saturate: `v >= static_cast<Arith>(maxpos)` compares with the integer part of maxpos read into the source type
-      let ip : Int := if n ≤ r then 0 else ((2 ^ (n - r - 1) : Nat) : Int) - 1        -- floor(maxpos)
-      if n > r && n - r - 1 ≥ sz then "fixpnt.from_int.saturate.threshold_exceeds_source_type"
-      else if v = ip && r > 0 && n > r then "fixpnt.from_int.saturate.floor_maxpos_returns_maxpos"
-      else ""
-  else
-    if sat then
-      -- Saturate: the thresholds are the raw patterns of maxpos / maxneg (to_long_long) cast to the unsigned source type
-      let rawMax : Nat := 2 ^ (n - 1) - 1
-      let mpT : Nat := (if n < 64 then rawMax else rawMax % 2 ^ 64) % 2 ^ sz
-      let mnT : Nat := (if n < 64 then 2 ^ 64 - 2 ^ (n - 1) else 2 ^ (n - 1) % 2 ^ 64) % 2 ^ sz
-      let codeHi := v ≥ (mpT : Int)
-      let codeLo := !codeHi && v ≤ (mnT : Int)
-      if codeLo || (codeHi && raw < FixpntSpec.maxposZ n) || (!codeHi && !codeLo && rightHi) then
-        "fixpnt.from_uint.saturate.raw_pattern_thresholds"
-      else if n - r > 64 then "fixpnt.from_uint.more_than_64_integer_bits" else ""
-    else if n - r > 64 then "fixpnt.from_uint.more_than_64_integer_bits"
-    else ""
-
-/-- classes of the float / double sources -/
-def fromIeeeClass (n r : Nat) (sat : Bool) (neg : Bool) (x : Rat) : String :=
-  let q := x * ((2 ^ r : Nat) : Rat)
-  let raw := rne q
-  -- nbits > 64: the results that go through `setbits(uint64_t)` (|x| 2^r < 2^64) are not sign-extended
-  if n > 64 && neg && raw ≠ 0 && -q < ((2 ^ 64 : Nat) : Rat) then "fixpnt.from_ieee.negative_nbits_gt_64"
-  -- Saturate: float(maxpos) = 2^(nbits-1-rbits) for nbits > 25; sources in [maxpos + ulp/2, 2^(nbits-1-rbits)) are not clamped
-  else if sat && n > 25 && raw > FixpntSpec.maxposZ n && x < ((2 ^ (n - 1) : Nat) : Rat) / ((2 ^ r : Nat) : Rat) then
-    "fixpnt.from_ieee.saturate.float_threshold"
-  else ""
-
 end ConvFix
 
 def convfixHandler : Handler := fun lhs rhs => do
@@ -100,7 +61,7 @@ def convfixHandler : Handler := fun lhs rhs => do
     let e := ConvFixpntSpec.fromInt n r sat v
     let raw : Int := v * ((2 ^ r : Nat) : Int)
     return judge (toHex m) o e s!"{op}/{md}/{if signed then "s" else "u"}{sz}/{ConvFix.rangeTag n raw}"
-      (ConvFix.fromIntClass n r sat sz signed v) (v == 0)
+      "" (v == 0)
   | "fromd", [bs], [os] | "fromf", [bs], [os] | "ctord", [bs], [os] | "ctorf", [bs], [os] =>
     let (p, ew) := if op == "fromd" || op == "ctord" then (53, 11) else (24, 8)
     let some b := parseHex bs | throw "bits"
@@ -117,7 +78,7 @@ def convfixHandler : Handler := fun lhs rhs => do
       let e := ConvFixpntSpec.fromRat n r sat x
       let q := x * ((2 ^ r : Nat) : Rat)
       return judge (toHex m) o e s!"{op}/{md}/{ConvFix.roundTag q}/{ConvFix.rangeTag n (rne q)}"
-        (ConvFix.fromIeeeClass n r sat neg x) (x == 0)
+        "" (x == 0)
   | "tod", [as], [bs, ks] | "tof", [as], [bs, ks] =>
     let (p, ew, fmt) := if op == "tod" then (53, 11, F64.binary64) else (24, 8, F64.binary32)
     let some a := parseHex as | throw "raw"
@@ -131,25 +92,19 @@ def convfixHandler : Handler := fun lhs rhs => do
     let holdable := F64.isFloatNat p (toSigned n a).natAbs
     let okVal := !SpecF64.isNaNPat p ew b && SpecF64.isFinPat p ew b && SpecF64.valOf p ew b == x && (a != 0 || b == 0)
     let okBack := k == a
-    let neg := decide (toSigned n a < 0)
-    let cls := if holdable && okVal && !okBack then ConvFix.fromIeeeClass n r sat neg x else ""
     return { model := s!"{toHex mb} {toHex mk}", specOk := !holdable || (okVal && okBack),
              reason := if !okVal then s!"the value is {showRat x}" else "converting the native value back does not return the encoding",
-             cls := cls, tag := s!"{op}/{md}/{if holdable then "holdable" else "not-holdable"}", trivial := a == 0, canonical := k < 2 ^ n }
+             cls := "", tag := s!"{op}/{md}/{if holdable then "holdable" else "not-holdable"}", trivial := a == 0, canonical := k < 2 ^ n }
   | "toi", [kind, as], [os] =>
     let some (sz, signed) := convIntKind kind | throw "kind"
     let some a := parseHex as | throw "raw"
     let some o := parseHex os | throw "out"
     if a ≥ 2 ^ n then throw "operand out of range"
-    let m := if signed then ofSigned 64 (toSigned sz (ConvFixpnt.toSignedPat n r sz a)) else ConvFixpnt.toUnsignedPat n sz a
+    let m := if signed then ofSigned 64 (toSigned sz (ConvFixpnt.toSignedPat n r sz a)) else ConvFixpnt.toUnsignedPat n r sz a
     let t := ConvFixpntSpec.toInt n r a
     let fits := ConvFixpntSpec.fitsInt sz signed t
     let ok := !fits || o == ofSigned 64 t
-    let x := ConvFixpntSpec.value n r a
-    let cls :=
-      if signed then (if x < 0 && x != (x.floor : Rat) then "fixpnt.to_signed.floor_of_negative" else "")
-      else (if r > 0 && a != 0 then "fixpnt.to_unsigned.raw_pattern" else "")
-    return { model := toHex m, specOk := ok, reason := s!"the value truncated toward zero is {t}", cls := cls,
+    return { model := toHex m, specOk := ok, reason := s!"the value truncated toward zero is {t}", cls := "",
              tag := s!"toi/{if signed then "s" else "u"}{sz}/{if fits then "fits" else "unconstrained"}", trivial := a == 0 }
   | "resize", [n2s, r2s, as, ps], [os] =>
     let some n2 := parseNat n2s | throw "n2"
@@ -158,16 +113,13 @@ def convfixHandler : Handler := fun lhs rhs => do
     let some pv := parseHex ps | throw "prev"
     let some o := parseHex os | throw "out"
     if a ≥ 2 ^ n || n2 = 0 || r2 > n2 then throw "operand out of range"
-    let m := toNat w (ConvFixpnt.resize w n r n2 r2 (ofNat w (nrBlocks w n) a) (ofNat w (nrBlocks w n2) pv))
+    let m := toNat w (ConvFixpnt.resize w n r n2 r2 sat (ofNat w (nrBlocks w n) a) (ofNat w (nrBlocks w n2) pv))
     let e := ConvFixpntSpec.resize n r n2 r2 sat a
     let q := ConvFixpntSpec.value n r a * ((2 ^ r2 : Nat) : Rat)
-    let cls :=
-      if n ≤ n2 then (if r != r2 then "fixpnt.resize.widen.rbits_differ" else "")
-      else if r ≤ r2 then "fixpnt.resize.narrow.no_fewer_rbits_noop"
-      else if r - r2 ≥ n then "fixpnt.resize.narrow.shift_by_full_width"
-      else if sat && ConvFix.rangeTag n2 (rne q) != "in" then "fixpnt.resize.narrow.saturate_wraps"
-      else ""
-    let o2 := { judge (toHex m) o e s!"resize/{md}/{if n ≤ n2 then "widen" else "narrow"}/{ConvFix.roundTag q}/{ConvFix.rangeTag n2 (rne q)}" cls (a == 0)
+    -- no known-finding class is left for the size adapter (all four repaired): any spec failure is an unknown class
+    let cls := ""
+    let sh := if r > r2 then (if r - r2 ≥ n then "fullshift" else "round") else if r < r2 then "upshift" else "same"
+    let o2 := { judge (toHex m) o e s!"resize/{md}/{if n ≤ n2 then "widen" else "narrow"}/{sh}/{ConvFix.roundTag q}/{ConvFix.rangeTag n2 (rne q)}" cls (a == 0)
                 with canonical := o < 2 ^ n2 }
     return o2
   | _, _, _ => throw s!"unknown op/arity {op}"
